@@ -19,11 +19,11 @@ def make_table(rng):
     # occupancies of alternate locations: unequal so that 'highest' is defined, sometimes equal
     for r in t:
         if r["altLoc"]:
-            r["occ100"] = rng.choice([60, 40, 50, 70, 30])
+            r["occ100"] = rng.choice([60, 40, 50, 70, 30, 0, 0, 100])      # 0.00 and 1.00 are common in deposited files
     # repeated names without altloc (a duplicate record)
     if rng.random() < 0.4 and t:
         r = dict(rng.choice(t))
-        r["occ100"] = rng.choice([100, 80, 20])
+        r["occ100"] = rng.choice([100, 80, 20, 0])
         r["x1000"] += rng.choice([0, 2000]) if r["x1000"] < 9000000 else 0
         t.insert(t.index(next(x for x in t if x["model"] == r["model"] and x["chainID"] == r["chainID"] and x["resSeq"] == r["resSeq"] and x["iCode"] == r["iCode"] and x["name"] == r["name"])) + 1, r)
     # planted clashes: a differently named atom 0.1-0.4 A away, in the same or (rarely) another residue of the same model
